@@ -590,6 +590,32 @@ class AT:
         it = lift(i)
         return AT((), lambda: f(it), self.hw)
 
+    def reshape(self, *shape):
+        """only the flattening of the pixel axes is representable: image.reshape(-1) is the same abstract vector"""
+        if len(shape) == 1 and isinstance(shape[0], (tuple, list)):
+            shape = tuple(shape[0])
+        if not self.lead and len(shape) == 1 and _is_num(shape[0]) and shape[0] == -1:
+            return AT((), self.fn, self.hw)
+        if len(self.lead) == 1 and len(shape) == 2 and _is_num(shape[1]) and shape[1] == -1 and (
+                _is_num(shape[0]) and shape[0] == -1 or V.dims_equal(shape[0], self.lead[0])):
+            return AT(self.lead, self.fn, self.hw)
+        raise OutOfSubset("reshape of an abstract image stack other than flattening the pixel axes")
+
+    view = reshape
+
+    def flatten(self, *a, **k):
+        if not self.lead and not a and not k:
+            return AT((), self.fn, self.hw)
+        raise OutOfSubset("flatten of an abstract image stack")
+
+    ravel = flatten
+
+    def norm(self, p=None, dim=None, keepdim=False):
+        return a_norm(self, p, dim, keepdim)
+
+    def square(self):
+        return AP(self, self)
+
     def _pyvc_inplace(self, op, new):
         if isinstance(new, AT):
             self.fn = new.fn
@@ -645,6 +671,9 @@ class AAS:
     def __init__(self, src):
         self.src = src
 
+    def sum(self, dim=None, keepdim=False, axis=None, keepdims=False):
+        return pixel_sum(self, dim if dim is not None else axis, keepdim or keepdims)
+
 
 class AP:
     """pointwise product x * y of two abstract images (bilinear)"""
@@ -653,6 +682,9 @@ class AP:
 
     def __init__(self, x, y):
         self.x, self.y = x, y
+
+    def sum(self, dim=None, keepdim=False, axis=None, keepdims=False):
+        return pixel_sum(self, dim if dim is not None else axis, keepdim or keepdims)
 
 
 def _generic_idx(lead):
@@ -790,6 +822,30 @@ def pixel_sum(x, dim=None, keepdim=False):
     return out
 
 
+def a_norm(x, p=None, dim=None, keepdim=False):
+    """Frobenius / 2-norm over the pixel axes: sqrt(Re <x, x>)"""
+    if p not in (None, 2, "fro", 2.0):
+        raise OutOfSubset("norm of an abstract image other than the 2-norm")
+    if not isinstance(x, AT):
+        raise OutOfSubset("norm of this abstract value")
+    if not x.lead and dim is None or x.lead == () and dim is not None:
+        r = pixel_sum(AAS(x), None, False)
+        return reals.app("sqrt", r)
+    if dim is None:
+        return reals.app("sqrt", pixel_sum(AAS(x), None, False))
+    r = pixel_sum(AAS(x), dim, keepdim)
+    return p_fun("sqrt", r) if isinstance(r, SymArr) else reals.app("sqrt", r)
+
+
+def a_vdot(x, y, conj_first=True):
+    """torch.vdot(x, y) = sum conj(x) * y = <x, y>;  torch.dot(x, y) = sum x * y = <cj x, y>"""
+    if not (isinstance(x, AT) and isinstance(y, AT) and x.lead == () and y.lead == ()):
+        raise OutOfSubset("vdot / dot of values that are not single abstract images")
+    a = x.fn() if conj_first else av_conj(x.fn())
+    r, i = ip(a, y.fn())
+    return CT(Sym(r), Sym(i))
+
+
 class AList:
     """A Python list of abstract images with symbolic length (loop-carried `xs.append(..)` lists)."""
 
@@ -897,6 +953,31 @@ def install(reg):
     for op in _OPS:
         for t in (CT, complex) + _A_TYPES:
             reg.binop_models[(t, op)] = ct_binop
+
+    def a_pow(interp, op, a, b):
+        e = b.literal() if isinstance(b, Sym) else b
+        if _is_num(e) and e == 2:
+            if isinstance(a, AABS):
+                return AAS(a.src)
+            if isinstance(a, AR):
+                return ARS(a.part, a.src)
+            if isinstance(a, CT):
+                return c_mul(a, a)
+            if isinstance(a, AT):
+                return AP(a, a)
+        raise OutOfSubset(f"power of {type(a).__name__}")
+
+    for t in (CT,) + _A_TYPES:
+        reg.binop_models[(t, operator.pow)] = a_pow
+
+    # unknown attributes of the model value classes are "outside the modelled subset", not an AttributeError of the program
+    def strict_attr(interp, base, name):
+        if hasattr(base, name):
+            return NotImplemented
+        raise OutOfSubset(f"attribute {name!r} of {type(base).__name__} is not modelled")
+
+    for t in (CT,) + _A_TYPES:
+        reg.attr_models[t] = strict_attr
 
     # ---- isinstance / len / list methods ---------------------------------------------------------------------------
     old_isinst = getattr(reg, "isinstance_model", None)
@@ -1303,6 +1384,36 @@ def install(reg):
 
     wrap(torch.tensor, m_tensor)
     wrap(torch.as_tensor, m_tensor)
+
+    def m_vdot(interp, x, y):
+        if isinstance(x, AT) or isinstance(y, AT):
+            return a_vdot(x, y, True)
+        if contains_sym((x, y)) or isinstance(x, CT) or isinstance(y, CT):
+            raise OutOfSubset("vdot of pixel-level tensors")
+        return NotImplemented
+
+    wrap(torch.vdot, m_vdot)
+
+    def m_dot(interp, x, y):
+        if isinstance(x, AT) or isinstance(y, AT):
+            return a_vdot(x, y, False)
+        if contains_sym((x, y)) or isinstance(x, CT) or isinstance(y, CT):
+            raise OutOfSubset("dot of pixel-level tensors")
+        return NotImplemented
+
+    wrap(torch.dot, m_dot)
+    wrap(torch.inner, m_dot)
+
+    def m_norm(interp, x, p=None, dim=None, keepdim=False, ord=None, **kw):
+        if isinstance(x, AT):
+            return a_norm(x, p if p is not None else ord, dim, keepdim)
+        if isinstance(x, (CT, Sym, SymArr)) or isinstance(x, _A_TYPES):
+            raise OutOfSubset("norm of this symbolic value")
+        return NotImplemented
+
+    wrap(torch.norm, m_norm)
+    wrap(torch.linalg.norm, m_norm)
+    wrap(torch.linalg.vector_norm, m_norm)
 
     def m_conj(interp, x):
         if isinstance(x, (CT, AT)):
